@@ -141,7 +141,7 @@ fn pair_cover<T: Copy>(all: &[T], n: usize) -> Vec<T> {
 
 pub fn run(ctx: Arc<Ctx>) {
 	ctx.rule(
-		"independent encoders x layout freedoms: versatiles (coverage tight/full/margin, block order, tile order, shared ranges, padding, metadata absent) 96 layouts; PMTiles (internal compression none/gzip, run lengths, shared offsets, 0/1/2 leaf levels with leaf size 1..3, clustered / reversed data) 112 layouts; \
+		"independent encoders x layout freedoms: versatiles (coverage tight/full/margin, block order, tile order, shared ranges, padding, metadata absent) 96 layouts; PMTiles (internal compression none/gzip, run lengths, shared offsets, 0..3 leaf levels with leaf size 1..3, clustered / reversed data) 160 layouts; \
 		 MBTiles (table / view over map+images, extra metadata, index, insert order) 16 layouts; tar (./ prefix, directory entries, ustar/GNU, member order natural / reversed / levels interleaved / hash order, metadata position) 32 layouts; directory (extra files). tile sets: BFS depth <= 1 x all layouts, PMTiles: every run (start x length <= 20 quick / 64 thorough) of equal consecutive tile ids 1..84 and every placement of two equal tiles + one other at z=2 x the layouts with run lengths / shared ranges, depth 2 x spread of layouts (quick) / all (thorough, in-memory formats), named families. \
 		 non-trivial = distinct (format, layout, tile set) using a feature the repository's writers never emit",
 	);
